@@ -550,3 +550,102 @@ def masking(ctx):
             else:
                 ctx.inconclusive.append(f"vacuity: {nm}")
     ctx.sample({"loop": text[:300], "paths": E.paths})
+
+
+# ---------------------------------------------------------------------------------------
+# O6: a character literal continued over two lines: what follows the leading `&` is still inside the literal until ITS closing quote —
+# the other quote character, `!`, `;` before that are plain text (finite-choice lines through the real reader)
+# ---------------------------------------------------------------------------------------
+from fv import choice as _choice6, parserh as _parserh6  # noqa: E402
+from fv.choice import CV as _CV6  # noqa: E402
+
+LIT_HEADS = [('msg = "don&', '"'), ("msg = 'say &", "'"), ('msg = "plain &', '"'), ("print *, 'a;b&", "'")]
+LIT_TAILS = ["&'t stop! keep going\"", "&\"hi!\" now'", "& text\"", "&''quoted''! ok'", "& it's; here\"", "&x\"\"y! z\""]
+
+
+def _lit_expected(head, quote, tail):
+    """the one statement Fortran's lexical rules give (3.3.2.4): None when the pair is not a well-formed continued literal of that quote kind
+    or when something follows the closing quote (trailing comments after a continued literal are outside this obligation)"""
+    body = tail[1:]
+    st, i = quote, 0
+    closed_at = None
+    while i < len(body):
+        c = body[i]
+        if c == quote:
+            if i + 1 < len(body) and body[i + 1] == quote:
+                i += 2
+                continue
+            closed_at = i
+            break
+        i += 1
+    if closed_at is None or body[closed_at + 1:].strip():
+        return None
+    return head[:-1] + body
+
+
+def replay_lit(w):
+    import ford.reader as rd
+    import os, tempfile
+    d = tempfile.mkdtemp(prefix="fvc02-")
+    p = os.path.join(d, "t.f90")
+    with open(p, "w") as f:
+        f.write("subroutine s()\n" + w["head"] + "\n" + w["tail"] + "\nend subroutine s\n")
+    try:
+        got = list(rd.FortranReader(p, "!", ">", "*", "|"))
+    except Exception as e:  # noqa
+        got = ["raised " + repr(e)[:120]]
+    finally:
+        os.remove(p)
+        os.rmdir(d)
+    want = ["subroutine s()", w["expected"], "end subroutine s"]
+    return got != want, {"physical lines": [w["head"], w["tail"]], "reader delivers": got, "lexical rules": want}
+
+
+@obligation("C02", "O6.reader.continued-literal", engine="SX(CV)", timeout=900)
+def continued_literal(ctx):
+    """two physical lines: a statement ending inside a character literal with `&`, continued by `&...` (symbolic choices holding the other
+    quote character, `!`, `;`, doubled quotes before the closing quote): the reader delivers the one joined statement, nothing cut off as a
+    comment and no spurious doc line"""
+    import ford.reader as rd
+
+    ctx.encode_fn(rd.FortranReader.__next__)
+    ctx.encode_fn(rd._match_docmark)
+    ctx.bounds.update({"first lines": [h_[0] for h_ in LIT_HEADS], "continuation lines": LIT_TAILS})
+
+    def h(E):
+        hd = _CV6.choice(E, "head", LIT_HEADS)
+        tl = _CV6.choice(E, "tail", LIT_TAILS)
+        want = _choice6.apply(lambda h_, t: _lit_expected(h_[0], h_[1], t), hd, tl)
+        E.assume(_choice6.apply(lambda w_: w_ is not None, want) if isinstance(want, _CV6) else want is not None)
+        E.e.snapshot = lambda m: {"head": _choice6.value_in_model(m, hd)[0], "tail": _choice6.value_in_model(m, tl),
+                                  "expected": _choice6.value_in_model(m, want)}
+        import ford.utils as fu
+        from fv import readerh as _rh, patch as _pt
+        lines = ["subroutine s()", hd[0], tl, "end subroutine s"]
+        extra = {(rd, "_contains_unterminated_string"): _parserh6.pointwise(rd._contains_unterminated_string)}
+        extra.update(_parserh6.helper_patches())
+        with _pt.patched(rd, fu, extra=extra):
+            r = _rh.mk_reader([l + "\n" for l in lines], docmark="!", predocmark=">", docmark_alt="*", predocmark_alt="|")
+            outs = []
+            for o in r:
+                outs.append(o)
+                if len(outs) > 6:
+                    break
+        E.reachable("read")
+        E.require(len(outs) == 3, "the two physical lines do not give exactly one statement (text cut off as a comment / spurious doc line)")
+        if len(outs) == 3:
+            E.require(_choice6.apply(lambda g, w_: g == w_, outs[1], want), "the joined statement differs from the text of the continued literal")
+
+    E = sym.Engine(ctx, max_paths=5000, incremental=True)
+    found = E.explore(h)
+    seen = set()
+    for (label, m, pc), snap in zip(found, E.snapshots):
+        if label in seen or not snap:
+            continue
+        seen.add(label)
+        ctx.report(label, snap, replay_lit)
+    if E.reached.get("read"):
+        ctx.twins += 1
+    else:
+        ctx.inconclusive.append("vacuity: nothing read")
+    ctx.sample({"paths": E.paths})
